@@ -389,7 +389,7 @@ UNITS['U23k'] = dict(
     assumptions=[], not_covered=['hex packing itself (hex crate, A-hex)', 'non-ASCII strings'])
 
 UNITS['U25k'] = dict(
-    kind='kani', crate='kani/U25', timeout_s=900, mem_gb=6, jobs=8,
+    kind='kani', crate='kani/U25', timeout_s=900, mem_gb=6, jobs=12,
     title='planner.rs propagate_nullability / combine_nulls / combine_nulls2: the NULLs of a binary operator result come from exactly its nullable operands, the values from the same operator on the operands\' data (every buffer index; the three nullability patterns with representative types, plus the complete is_nullable / non_nullable tables)',
     harnesses=[dict(name='proofs::%s_nulls' % h, unwind=5, bounded='the three nullability patterns (both / left / right operand nullable) with representative types; every buffer index; unwind 5',
                     clause='rewrite of %s with nullable result: null sources == nullable operands; value op on forget_nullability(operands) into a fresh buffer' % v, fn='propagate_nullability[%s] + combine_nulls' % v)
@@ -424,35 +424,38 @@ UNITS['U27k'] = dict(
     not_covered=['the other call sites of null_vec_like (group-by placeholders)', 'the ASTBuilder proc-macro'])
 
 UNITS['U28k'] = dict(
-    kind='kani', crate='kani/U28', timeout_s=1200, mem_gb=8, jobs=5,
-    title='batch_merging::combine - the plan that merges two partial results (slices; BOUNDED: 0-4 group-by columns with three aggregates, 1-3 sort columns with three output columns) with real unify_types / null_to_val; unify_types + least_upper_bound for every pair of types (complete)',
+    kind='kani', crate='kani/U28', timeout_s=1200, mem_gb=8, jobs=8,
+    title='batch_merging::combine - the plan that merges two partial results (slices; BOUNDED: 0-3 group-by columns with three aggregates, 1-2 sort columns with three output columns; 4-5 group-by and 3 sort columns in the thorough tier) with real unify_types / null_to_val; unify_types + least_upper_bound for every pair of types (complete)',
     harnesses=[dict(name='proofs::%s' % w, bounded='%d group-by columns at fixed positions, three aggregates (int/int, int/float, float/int), any limit, unwind 7' % n, unwind=7, clause=c, fn='combine[slice: aggregation branch up to the executor call]')
                for (w, n, c) in [('no_group_by_column', 0, 'constant schedule [TakeLeft, MergeRight]; every aggregate combined under it from its own left / right partial column; the integer side of a mixed pair cast to float'),
                                  ('one_group_by_column', 1, 'merge_deduplicate(key); every aggregate combined under its schedule'),
                                  ('two_group_by_columns', 2, 'partition(key0) -> merge_deduplicate_partitioned(key1) -> merge_drop replay on key0; aggregates under that schedule'),
                                  ('three_group_by_columns', 3, 'partition(key0) -> subpartition(key1) -> merge_deduplicate_partitioned(key2) -> merge_drop replay on keys 0..1; outputs in key order; aggregates under that schedule'),
-                                 ('four_group_by_columns', 4, 'partition(key0) -> subpartition(key1..2 in order) -> merge_deduplicate_partitioned(key3) -> merge_drop replay on keys 0..2; outputs in key order; aggregates under that schedule')]]
+                                 ]]
+    + [dict(name='proofs::four_group_by_columns', thorough_only=True, bounded='4 group-by columns at fixed positions, three aggregates, any limit, unwind 7 (thorough tier)', unwind=7, clause='partition(key0) -> subpartition(key1..2 in order) -> merge_deduplicate_partitioned(key3) -> merge_drop replay on keys 0..2; outputs in key order; aggregates under that schedule', fn='combine[slice: aggregation branch up to the executor call]')]
     + [dict(name='proofs::%s' % w, bounded='%d sort columns at fixed positions with any directions, three output columns, any limit, unwind 7' % n, unwind=7, clause=c, fn='combine[slice: ORDER BY branch up to the executor call]')
        for (w, n, c) in [('one_sort_column', 1, 'merge(sort column, limit, its direction); other output columns replayed with merge_keep on their own buffers; the final sort column output is the merged column'),
                          ('two_sort_columns', 2, 'partition(col0, dir0) -> merge_partitioned(col1, limit, dir1); merge_keep replay on output columns and on sort column 0, directions kept'),
-                         ('three_sort_columns', 3, 'partition(col0, dir0) -> subpartition(col1, dir1) -> merge_partitioned(col2, limit, dir2); merge_keep replay on output columns and on sort columns 0..1, directions kept')]]
+                         ]]
+    + [dict(name='proofs::three_sort_columns', thorough_only=True, bounded='3 sort columns at fixed positions with any directions, three output columns, any limit, unwind 7 (thorough tier)', unwind=7, clause='partition(col0, dir0) -> subpartition(col1, dir1) -> merge_partitioned(col2, limit, dir2); merge_keep replay on output columns and on sort columns 0..1, directions kept', fn='combine[slice: ORDER BY branch up to the executor call]')]
     + [dict(name='proofs::unify_types_gives_one_type', clause='for every pair of column types: unify_types returns two buffers of one common type (casts recorded); never a panic', fn='batch_merging::unify_types + EncodingType::least_upper_bound'),
        dict(name='proofs::five_group_by_columns', thorough_only=True, bounded='5 group-by columns at fixed positions, any limit, unwind 8 (thorough tier)', unwind=8, clause='same chain for five keys', fn='combine[slice: aggregation branch up to the executor call]'),
        dict(name='proofs::vx_canary', expect_fail=True)],
     assumptions=['A-astbuilder: planner methods constant_vec / partition / subpartition / merge_deduplicate / merge_deduplicate_partitioned / merge_drop / merge_aggregate / merge / merge_partitioned / merge_keep / cast are recording stand-ins for the generated node constructors',
                  'the kernels behind the nodes are U10, U29 (merge*, partition, subpartition) and U09m (merge_aggregate)',
                  'R6: batch1.aggregations / batch1.order_by / batch1.projection (and batch2.*) lifted to parameters'],
-    not_covered=['more than 4 group-by columns / 3 sort columns', 'key columns of different types on the two sides (casts; unify_types alone is covered for every pair)', 'the plain SELECT branch (append_all with the LIMIT window)', 'executor run and collect_aliased after the plan is built'])
+    not_covered=['more than 3 (thorough: 5) group-by columns / 2 (thorough: 3) sort columns', 'key columns of different types on the two sides (casts; unify_types alone is covered for every pair)', 'the plain SELECT branch (append_all with the LIMIT window)', 'executor run and collect_aliased after the plan is built'])
 
 UNITS['U41k'] = dict(
     kind='kani', crate='kani/U41', timeout_s=1500, mem_gb=24, jobs=4,
-    title='BOUNDED (4 rows of single-column keys in one batch and in two streamed batches; 3 rows of two-column byte-slice / mixed-value keys; every value symbolic): hashmap_grouping.rs, hashmap_grouping_byte_slices.rs, hashmap_grouping_val_rows.rs execute bodies (slices) - one group id per row, equal keys share an id, each distinct key kept once',
+    title='BOUNDED (4 rows of single-column keys in one batch and in two streamed batches; 2 rows (thorough: 3) of two-column byte-slice / mixed-value keys; every value symbolic): hashmap_grouping.rs, hashmap_grouping_byte_slices.rs, hashmap_grouping_val_rows.rs execute bodies (slices) - one group id per row, equal keys share an id, each distinct key kept once',
     harnesses=[dict(name='proofs::%s' % h, bounded=b, unwind=8, clause='grouping[i] == grouping[j] <=> key[i] == key[j]; unique[grouping[i]] == key[i]; ids dense in first-appearance order; unique.len() == number of distinct keys == reported cardinality', fn=f)
                for (h, b, f) in [('single_column_one_batch', '4 rows, any i64 keys, unwind 8', 'HashMapGrouping<T>::execute[slice]'),
                                  ('single_column_two_batches', '2 + 2 rows streamed, any i64 keys, unwind 8', 'HashMapGrouping<T>::execute[slice]'),
-                                 ('byte_slice_rows', '3 rows of 2 cells, each cell one of three byte strings, unwind 8', 'HashMapGroupingByteSlices::execute[slice]'),
+                                 ('byte_slice_rows_two', '2 rows of 2 cells, each cell one of three byte strings, unwind 8', 'HashMapGroupingByteSlices::execute[slice]'),
                                  ('val_rows_two', '2 rows of 2 cells, each cell NULL / an integer / a float from a 256-value range, unwind 8', 'HashMapGroupingValRows::execute[slice]')]]
-    + [dict(name='proofs::val_rows_three', thorough_only=True, bounded='3 rows of 2 cells (thorough tier; about 10 min and 17 GB)', unwind=8, clause='same contract', fn='HashMapGroupingValRows::execute[slice]'),
+    + [dict(name='proofs::byte_slice_rows_three', thorough_only=True, bounded='3 rows of 2 cells, each cell one of three byte strings (thorough tier)', unwind=8, clause='same contract', fn='HashMapGroupingByteSlices::execute[slice]'),
+       dict(name='proofs::val_rows_three', thorough_only=True, bounded='3 rows of 2 cells (thorough tier; about 10 min and 17 GB)', unwind=8, clause='same contract', fn='HashMapGroupingValRows::execute[slice]'),
        dict(name='proofs::vx_canary', expect_fail=True)],
     assumptions=['A-hashmap: fnv::FnvHashMap behaves as a map with a lawful Hash/Eq key - entry(k).or_insert_with(f) yields the value stored under a key equal to k and runs f (storing its result under k) only when there is none; association-list stand-in in kani/U41/src/lib.rs (hashbrown itself is beyond CBMC)',
                  'R6: scratchpad bindings become parameters of the same guard / reference types; self.map in a one-field stand-in; trait Data reduced to len()'],
@@ -596,7 +599,7 @@ PROPS = {
                 technique='contract-based deductive verification (Kani: complete induction step + bounded harnesses) of extracted slices and of the unmodified sub-crate',
                 assumptions=[], not_covered=['capnp transport', 'bitbuffer internals', 'bincode / HTTP framing']),
     'C02': dict(level='proof', units=['U10', 'U09k', 'U09m', 'U13k', 'U20k', 'U28k', 'U29', 'U38k'],
-                level_text='Verus proofs of the merge kernels that combine per-partition results (sorted, provenance, left-biased, nothing skipped), complete Kani proofs of cross-partition aggregate combination and limit arithmetic; bounded Kani check (0-4 grouping keys with three aggregates; 1-3 sort columns) of the plans that merge two partial aggregation / ORDER BY results',
+                level_text='Verus proofs of the merge kernels that combine per-partition results (sorted, provenance, left-biased, nothing skipped), complete Kani proofs of cross-partition aggregate combination and limit arithmetic; bounded Kani check (0-3 grouping keys with three aggregates, 1-2 sort columns; thorough tier up to 5 and 3) of the plans that merge two partial aggregation / ORDER BY results',
                 level_note='per-partition planning, executor streaming, disk read scheduling and thread count are glue and not covered: the check catches a broken merge/combine primitive or a broken key-merge chain, not a broken executor',
                 technique='contract-based deductive verification (Verus + Kani complete harnesses) of extracted functions',
                 assumptions=[], not_covered=['executor stage partitioning / streaming', 'batch_merging::combine: plain SELECT branch, executor run and collect_aliased', 'disk read scheduler']),
